@@ -15,6 +15,8 @@ RULE = ("(a) cell sweep: for every (operation x operand-type combination x plain
         "ignore_errors); every completing run must have the canonical trace of the first. Non-trivial = the compared "
         "runs differ in a secret value that feeds a comparison, division, index, bit decomposition or guard and the "
         "trace has >= 1 constraint; distinct by digest of (program, input vectors).")
+RULE += " Extensions (seeded rounds 10-15): lazily produced operands of the linalg helpers, values read back and fed to the next @snark call, three-argument pow, unpacking of raw wires."
+
 
 OPS_C06 = [n for n in ir.OPS if n != "val"]
 SENSITIVE = {"lt", "le", "gt", "ge", "eq", "ne", "truediv", "floordiv", "mod", "divmod", "aget", "aset", "to_bits",
